@@ -536,6 +536,27 @@ class LiteralValue:
     properties: Iterable[Property] = attrs.field(
         converter=list_converter(Property),
     )
+    # The metamodel puts the annotations of a literal here (`StructureLiteral`).
+    proposed: Optional[bool] = attrs.field(
+        validator=attrs.validators.optional(attrs.validators.instance_of(bool)),
+        default=None,
+    )
+    documentation: Optional[str] = attrs.field(
+        validator=attrs.validators.optional(attrs.validators.instance_of(str)),
+        default=None,
+    )
+    since: Optional[str] = attrs.field(
+        validator=attrs.validators.optional(attrs.validators.instance_of(str)),
+        default=None,
+    )
+    sinceTags: Optional[List[str]] = attrs.field(
+        validator=attrs.validators.optional(attrs.validators.instance_of(list)),
+        default=None,
+    )
+    deprecated: Optional[str] = attrs.field(
+        validator=attrs.validators.optional(attrs.validators.instance_of(str)),
+        default=None,
+    )
     id_: Optional[str] = attrs.field(
         converter=lambda x: str(uuid.uuid4()),
         validator=attrs.validators.optional(attrs.validators.instance_of(str)),
@@ -566,31 +587,33 @@ class LiteralType:
         validator=attrs.validators.optional(attrs.validators.instance_of(str)),
         default=None,
     )
-    proposed: Optional[bool] = attrs.field(
-        validator=attrs.validators.optional(attrs.validators.instance_of(bool)),
-        default=None,
-    )
-    documentation: Optional[str] = attrs.field(
-        validator=attrs.validators.optional(attrs.validators.instance_of(str)),
-        default=None,
-    )
-    since: Optional[str] = attrs.field(
-        validator=attrs.validators.optional(attrs.validators.instance_of(str)),
-        default=None,
-    )
-    sinceTags: Optional[List[str]] = attrs.field(
-        validator=attrs.validators.optional(attrs.validators.instance_of(list)),
-        default=None,
-    )
-    deprecated: Optional[str] = attrs.field(
-        validator=attrs.validators.optional(attrs.validators.instance_of(str)),
-        default=None,
-    )
     id_: Optional[str] = attrs.field(
         converter=lambda x: str(uuid.uuid4()),
         validator=attrs.validators.optional(attrs.validators.instance_of(str)),
         default=None,
     )
+
+    # The annotations of a literal are those of its `value`; the plugins ask the
+    # type, as they do for structures.
+    @property
+    def proposed(self) -> Optional[bool]:
+        return self.value.proposed
+
+    @property
+    def documentation(self) -> Optional[str]:
+        return self.value.documentation
+
+    @property
+    def since(self) -> Optional[str]:
+        return self.value.since
+
+    @property
+    def sinceTags(self) -> Optional[List[str]]:
+        return self.value.sinceTags
+
+    @property
+    def deprecated(self) -> Optional[str]:
+        return self.value.deprecated
 
     def __eq__(self, other: object) -> bool:
         if isinstance(other, LiteralType):
